@@ -229,6 +229,16 @@ def run(tier: str) -> int:
     return chk.finish()
 
 
+def selftest(tier: str) -> int:
+    """In-process mutation probes (monkeypatched library, never /repo): each must be killed."""
+    from . import boot
+    from .core import run_probes
+    boot.setup()
+    allp = djc.standard_probes()
+    probes = [(n, allp[n]) for n in ['root-attrs-not-passed-to-children', 'fills-named-b-dropped']]
+    return run_probes(PID, probes, lambda chk: body(chk, mc_nodes=2, n_random=200, deep=3, chains_w=[20], chains_r=[10]))
+
+
 def replay(path: str) -> int:
     from . import boot
     boot.setup()
